@@ -22,7 +22,7 @@ func drvRules() []*Rule {
 		{ID: "DRV-4", Props: []string{"C19", "C20", "C17"}, Min: 2,
 			Doc: "Rows.Close cancels, then waits, then reads the error it returns",
 			Run: runDrv4},
-		{ID: "DRV-5", Props: []string{"C19", "C20"}, Min: 4,
+		{ID: "DRV-5", Props: []string{"C19", "C20", "C12"}, Min: 4,
 			Doc: "Rows.Next surfaces the stored error (else io.EOF) when the channel is closed and copies the row positionally; Rows.err is read only after the close was observed or after wg.Wait",
 			Run: runDrv5},
 		{ID: "DRV-6", Props: []string{"C19"}, Min: 1,
